@@ -715,3 +715,27 @@ Proof.
   intros uni client m R. destruct (oreach_inv _ _ _ R) as ((n & K & B & I) & D & _).
   eapply out_facts_inv; eauto using first_outgoing_range.
 Qed.
+
+(** ** No lost wake-up (OpenStreamSync): a state is quiescent when no wake-up is pending — no
+    queued caller holds a token and no caller is still to be told that the map was closed.
+    In a quiescent state a caller is blocked only if the map is at the peer's limit. *)
+Definition out_quiescent (m : outmap) : Prop :=
+  Forall (fun e => snd e = false) (o_queue m) /\ o_dead m = [].
+
+Lemma out_no_lost_wakeup_inv : forall f m n K B, 0 <= f <= 3 -> InvOut f m n K B ->
+  out_quiescent m -> o_queue m <> [] -> o_closed m = None /\ o_max m < o_next m.
+Proof.
+  intros f m n K B Hf (Hn & Hr & HK & Ht & Hc & _) [Q _] N.
+  split.
+  - destruct (o_closed m) eqn:C; [|reflexivity]. exfalso. apply N. apply Hc. discriminate.
+  - unfold head_tok in Ht. destruct (o_queue m) as [|[w t] q]; [congruence|].
+    destruct Ht as [Ht _]. inversion Q as [|? ? Hw _]. cbn [snd] in Hw. rewrite Hw in Ht.
+    destruct (Z.leb_spec (o_next m) (o_max m)); [discriminate|lia].
+Qed.
+
+Theorem out_no_lost_wakeup : forall uni client m, oreach uni client m ->
+  out_quiescent m -> o_queue m <> [] -> o_closed m = None /\ o_max m < o_next m.
+Proof.
+  intros uni client m R. destruct (oreach_inv _ _ _ R) as ((n & K & B & I) & _ & _).
+  eapply out_no_lost_wakeup_inv; eauto using first_outgoing_range.
+Qed.
